@@ -77,17 +77,40 @@ func ruleWriteModeKeepsReadCursor(rule string) func(*Ctx) {
 				})
 			}
 			check(cs.Call.Args[0])
-			if offsetObj != nil {
+			// every value the offset variable is given, following copies of other locals (`var p = position`)
+			seenObj := map[types.Object]bool{}
+			var follow func(o types.Object, depth int)
+			follow = func(o types.Object, depth int) {
+				if o == nil || seenObj[o] || depth > 3 {
+					return
+				}
+				seenObj[o] = true
+				src := func(e ast.Expr) {
+					check(e)
+					if ro := objOfIdent(info, e); ro != nil {
+						follow(ro, depth+1)
+					}
+				}
 				walkOwn(f.Body(), func(nd ast.Node) {
-					if as, ok := nd.(*ast.AssignStmt); ok && len(as.Lhs) == len(as.Rhs) {
-						for i, l := range as.Lhs {
-							if objOfIdent(info, l) == offsetObj {
-								check(as.Rhs[i])
+					switch x := nd.(type) {
+					case *ast.AssignStmt:
+						if len(x.Lhs) == len(x.Rhs) {
+							for i, l := range x.Lhs {
+								if objOfIdent(info, l) == o {
+									src(x.Rhs[i])
+								}
+							}
+						}
+					case *ast.ValueSpec:
+						for i, nm := range x.Names {
+							if info.Defs[nm] == o && i < len(x.Values) {
+								src(x.Values[i])
 							}
 						}
 					}
 				})
 			}
+			follow(offsetObj, 0)
 			c.verdictIf(fromStream, rule, f, fmt.Sprintf("positioning seek#%d", n), cs.Call.Pos(), "the write buffer is positioned where the read stream stood",
 				"entering write mode positions the buffer of a non-appending handle at "+exprString(cs.Call.Args[0])+", whatever the handle's position was: Read(3) or Seek(3) followed by Write overwrites the first bytes of the file instead of those at offset 3, and writing after reading to the end overwrites the file from the start")
 		}
@@ -200,7 +223,7 @@ func ruleAppendSeeksToEnd(rule string) func(*Ctx) {
 			return
 		}
 		info := f.Pkg.TypesInfo
-		ov := paramVar(f, "overwrite")
+		ov := roleVar(f, "overwrite")
 		n := 0
 		for _, cs := range f.calls {
 			fn, ok := cs.Callee.(*types.Func)
@@ -682,5 +705,382 @@ func ruleUpdateAppliedWhenRowFound(rule string) func(*Ctx) {
 		if n < 2 {
 			c.unresolved("only %d persister writes found in indexHeader", n)
 		}
+	}
+}
+
+func init() {
+	extend("C11", ruleFsIndexReadsUnderLock("C11.fs-index-reads-under-lock"))
+	extend("C06", ruleRestoredLengthChecked("C06.restored-length-checked"))
+	extend("C03", ruleRestoredLengthChecked("C03.restored-length-checked"))
+	extend("C02", ruleWriteRecordCarriesOwner("C02.write-record-carries-owner"))
+}
+
+// ruleFsIndexReadsUnderLock: the filesystem's entry points decide on what the index says; every look into the index
+// (inventory.*, the metadata persister) from a method of fs.STFS happens while the filesystem lock is held - a check
+// made before the lock is taken can be overtaken by another client's rename or remove (Create returning "does not
+// exist" for a directory that exists before and after a concurrent Rename).
+func ruleFsIndexReadsUnderLock(rule string) func(*Ctx) {
+	return func(c *Ctx) {
+		c.floor(rule, 30, "index lookups in the methods of fs.STFS")
+		mu := c.mutex("fs.STFS")
+		iface := c.namedType("pkg/config", "MetadataPersister")
+		if mu == nil || iface == nil {
+			return
+		}
+		isIndexRead := func(cs *CallSite) bool {
+			fn, ok := cs.Callee.(*types.Func)
+			if !ok || fn.Pkg() == nil {
+				return false
+			}
+			if strings.HasSuffix(fn.Pkg().Path(), "pkg/inventory") {
+				return true
+			}
+			sig := fn.Type().(*types.Signature)
+			return sig.Recv() != nil && types.Identical(sig.Recv().Type(), iface)
+		}
+		// helpers entered with the lock held by every caller
+		heldOnEntry := map[*FuncInfo]bool{}
+		for pass := 0; pass < 3; pass++ {
+			for _, f := range c.Funcs {
+				if f.RelPkg() != "pkg/fs" || f.Decl == nil || f.Decl.Name.IsExported() || !strings.HasPrefix(f.Name, "(*STFS).") {
+					continue
+				}
+				callers, all := 0, true
+				for _, g := range c.Funcs {
+					for _, cs := range g.calls {
+						if cs.Target != f {
+							continue
+						}
+						callers++
+						root := g
+						for root.Outer != nil {
+							root = root.Outer
+						}
+						if !(c.lockHeldAt(g, cs.Call, mu) || heldOnEntry[root]) {
+							all = false
+						}
+					}
+				}
+				if callers > 0 && all {
+					heldOnEntry[f] = true
+				}
+			}
+		}
+		n := 0
+		for _, f := range c.Funcs {
+			root := f
+			for root.Outer != nil {
+				root = root.Outer
+			}
+			if f.RelPkg() != "pkg/fs" || root.Decl == nil || !strings.HasPrefix(root.Name, "(*STFS).") {
+				continue
+			}
+			k := 0
+			for _, cs := range f.calls {
+				if !isIndexRead(cs) {
+					continue
+				}
+				n++
+				k++
+				held := heldOnEntry[root] || c.lockHeldAt(f, cs.Call, mu)
+				if f != root && !held {
+					// a closure: held if the closure is only called where the lock is held
+					held = c.lockHeldAt(root, cs.Call, mu)
+				}
+				c.verdictIf(held, rule, root, fmt.Sprintf("%s index read#%d %s", strings.TrimPrefix(f.Name, root.Name), k, cs.Callee.Name()), cs.Call.Pos(), "made while the filesystem lock is held",
+					"the index is consulted ("+exprString(cs.Call.Fun)+") without the filesystem lock: the answer can be overtaken by another client's call before it is acted on (Create reporting a missing parent while a concurrent Rename replaces that directory, which exists before and after)")
+			}
+		}
+	}
+}
+
+// ruleRestoredLengthChecked: recovery.Fetch does not rely on the decoders to notice a member that was cut short (the
+// zstandard reader reports a stream that ends before its first byte as a clean end): the number of bytes restored is
+// compared with the size recorded in the member's header, and a mismatch is an error.
+func ruleRestoredLengthChecked(rule string) func(*Ctx) {
+	return func(c *Ctx) {
+		c.floor(rule, 1, "the content copy of recovery.Fetch")
+		f := c.fn("pkg/recovery", "Fetch")
+		verify := c.fn("pkg/signature", "Verify")
+		if f == nil || verify == nil {
+			return
+		}
+		info := f.Pkg.TypesInfo
+		var verifier types.Object
+		walkOwn(f.Body(), func(nd ast.Node) {
+			as, ok := nd.(*ast.AssignStmt)
+			if !ok || len(as.Rhs) != 1 || len(as.Lhs) < 2 {
+				return
+			}
+			if call, ok := ast.Unparen(as.Rhs[0]).(*ast.CallExpr); ok && isCallTo(info, call, verify.Obj) {
+				verifier = objOfIdent(info, as.Lhs[0])
+			}
+		})
+		n := 0
+		walkOwn(f.Body(), func(nd ast.Node) {
+			as, ok := nd.(*ast.AssignStmt)
+			if !ok || len(as.Rhs) != 1 || len(as.Lhs) != 2 {
+				return
+			}
+			call, ok := ast.Unparen(as.Rhs[0]).(*ast.CallExpr)
+			if !ok || !isPkgFunc(calleeObj(info, call), "io", "Copy") || len(call.Args) != 2 || objOfIdent(info, call.Args[1]) != verifier || verifier == nil {
+				return
+			}
+			n++
+			cnt := objOfIdent(info, as.Lhs[0])
+			checked := false
+			if cnt != nil {
+				walkOwn(f.Body(), func(m ast.Node) {
+					is, ok := m.(*ast.IfStmt)
+					if !ok || !usesObj(info, is.Cond, cnt) {
+						return
+					}
+					if branchReturnsError(info, is.Body) {
+						checked = true
+					}
+				})
+			}
+			c.verdictIf(checked, rule, f, fmt.Sprintf("content copy#%d length", n), call.Pos(), "the number of bytes restored is compared with the recorded size",
+				"recovery.Fetch does not look at how many bytes the content copy delivered: a member cut short right behind its header is restored as zero bytes without an error under a decoder that treats an empty stream as a clean end (zstandard)")
+		})
+		if n == 0 {
+			c.unresolved("no `n, err := io.Copy(dst, verifier)` found in recovery.Fetch")
+		}
+	}
+}
+
+// ruleWriteRecordCarriesOwner: the record a handle writes for new content carries the entry's owner. archive/tar takes
+// ownership only from a *tar.Header (or the platform's stat type), not from this package's own Stat: the file info
+// handed to Operations.Update by File.syncWithoutLocking comes from a tar header (hdr.FileInfo()).
+func ruleWriteRecordCarriesOwner(rule string) func(*Ctx) {
+	return func(c *Ctx) {
+		c.floor(rule, 1, "file info handed to Operations.Update by File.syncWithoutLocking")
+		f := c.fn("pkg/fs", "(*File).syncWithoutLocking")
+		infoF := c.field("pkg/config", "FileConfig", "Info")
+		if f == nil || infoF == nil {
+			return
+		}
+		n := 0
+		for _, g := range append([]*FuncInfo{f}, c.litsIn(f)...) {
+			ginfo := g.Pkg.TypesInfo
+			walkOwn(g.Body(), func(nd ast.Node) {
+				kv, ok := nd.(*ast.KeyValueExpr)
+				if !ok {
+					return
+				}
+				id, ok := kv.Key.(*ast.Ident)
+				if !ok || ginfo.Uses[id] != types.Object(infoF) {
+					return
+				}
+				n++
+				fromHeader := false
+				inspectThrough(g, kv.Value, func(m ast.Node) bool {
+					if call, ok := m.(*ast.CallExpr); ok && isMethod(calleeObj(ginfo, call), "archive/tar", "Header", "FileInfo") {
+						fromHeader = true
+					}
+					return !fromHeader
+				})
+				c.verdictIf(fromHeader, rule, f, fmt.Sprintf("FileConfig.Info#%d", n), kv.Pos(), "the info comes from a tar header, which carries owner and times",
+					"the file info handed to Update for a content write is not a tar header's: archive/tar.FileInfoHeader copies uid/gid and access/change times only from a *tar.Header (or the platform's stat type), so every write through a handle resets the entry's owner to 0/0")
+			})
+		}
+		if n == 0 {
+			c.unresolved("File.syncWithoutLocking no longer fills config.FileConfig.Info")
+		}
+	}
+}
+
+func init() {
+	extend("C11", ruleHandleInfoNotShared("C11.handle-info-not-shared"))
+	extend("C02", ruleTruncateAtOpen("C02.truncate-at-open"))
+	extend("C14", ruleTruncateAtOpen("C14.truncate-at-open"))
+}
+
+// ruleHandleInfoNotShared: File.Stat hands out a copy of the handle's file info. The handle updates its own info in
+// place under the filesystem lock; a caller holding the same object reads it without the lock (a data race), and
+// edits made for one Stat (the link's name) would stay in the handle.
+func ruleHandleInfoNotShared(rule string) func(*Ctx) {
+	return func(c *Ctx) {
+		c.floor(rule, 1, "success returns of File.Stat")
+		f := c.fn("pkg/fs", "(*File).Stat")
+		infoF := c.field("pkg/fs", "File", "info")
+		if f == nil || infoF == nil {
+			return
+		}
+		info := f.Pkg.TypesInfo
+		n := 0
+		for i, ret := range returnsIn(f) {
+			if len(ret.Results) != 2 || !isNilIdent(info, ret.Results[1]) {
+				continue
+			}
+			n++
+			shared := false
+			e := ast.Unparen(ret.Results[0])
+			if selField(info, e) == infoF {
+				shared = true
+			}
+			if d := localDef(f, e); d != nil && selField(info, ast.Unparen(d)) == infoF {
+				shared = true // `info := f.info` copies the pointer, not the object
+			}
+			c.verdictIf(!shared, rule, f, fmt.Sprintf("return#%d", i+1), ret.Pos(), "a copy is handed out",
+				"File.Stat returns the handle's own info object: the handle keeps writing to it under the filesystem lock (the size, on every later Stat) while the caller reads it without any lock - a data race - and an adjustment made for this call (the link's name) sticks to the handle")
+		}
+		if n == 0 {
+			c.unresolved("no success return found in File.Stat")
+		}
+	}
+}
+
+// ruleTruncateAtOpen: O_TRUNC empties the file when it is opened. Truncation is implemented by entering write mode
+// (which empties the buffer); OpenFile therefore enters write mode itself for a truncating, writable open - otherwise
+// reads on the handle see the old content and a Close without a write keeps it.
+func ruleTruncateAtOpen(rule string) func(*Ctx) {
+	return func(c *Ctx) {
+		c.floor(rule, 1, "the truncating open in STFS.OpenFile")
+		f := c.fn("pkg/fs", "(*STFS).OpenFile")
+		enter := c.fn("pkg/fs", "(*File).enterWriteMode")
+		truncF := c.field("pkg/fs", "FileFlags", "Truncate")
+		if f == nil || enter == nil || truncF == nil {
+			return
+		}
+		info := f.Pkg.TypesInfo
+		found := false
+		var at token.Pos = f.Pos()
+		for _, cs := range f.calls {
+			if cs.Target != enter {
+				continue
+			}
+			at = cs.Call.Pos()
+			for _, cl := range enclosingCondsFlow(info, f.Body(), cs.Call) {
+				ast.Inspect(cl.e, func(m ast.Node) bool {
+					if e, ok := m.(ast.Expr); ok && selField(info, e) == truncF && cl.pos {
+						found = true
+					}
+					return !found
+				})
+			}
+		}
+		c.verdictIf(found, rule, f, "O_TRUNC applied at open", at, "a truncating open enters write mode (which empties the buffer) before the handle is handed out",
+			"OpenFile hands out a handle for O_TRUNC without applying the truncation: it only happens when the handle is first written to, so reads on the handle still return the old content and Create() + Close() on an existing file leaves it as it was")
+	}
+}
+
+func init() {
+	extend("C14", ruleNegativeSeekRefused("C14.negative-seek-refused"))
+}
+
+// ruleNegativeSeekRefused: there is nothing in front of the first byte. In read mode the seek target is computed by
+// the whence dispatch into one variable; before the stream is touched that variable is tested `< 0` and the call
+// refused.
+func ruleNegativeSeekRefused(rule string) func(*Ctx) {
+	return func(c *Ctx) {
+		c.floor(rule, 1, "the computed target of File.seekWithoutLocking")
+		f := c.fn("pkg/fs", "(*File).seekWithoutLocking")
+		if f == nil {
+			return
+		}
+		info := f.Pkg.TypesInfo
+		wh := paramVar(f, "whence")
+		// the target variable: assigned in an arm of the whence dispatch
+		var target types.Object
+		for _, t := range c.switchesOn(f, wh) {
+			for _, arm := range t.Arms {
+				for _, st := range arm.Body {
+					if as, ok := st.(*ast.AssignStmt); ok && len(as.Lhs) == 1 {
+						if o := objOfIdent(info, as.Lhs[0]); o != nil && target == nil {
+							target = o
+						}
+					}
+				}
+			}
+		}
+		if target == nil {
+			c.unresolved("no target variable assigned by the whence dispatch of seekWithoutLocking")
+			return
+		}
+		refused := false
+		var at token.Pos = f.Pos()
+		walkOwn(f.Body(), func(nd ast.Node) {
+			is, ok := nd.(*ast.IfStmt)
+			if !ok {
+				return
+			}
+			be, ok := ast.Unparen(is.Cond).(*ast.BinaryExpr)
+			if !ok || be.Op != token.LSS || objOfIdent(info, be.X) != target {
+				return
+			}
+			if tv := info.Types[be.Y]; tv.Value == nil || tv.Value.String() != "0" {
+				return
+			}
+			if branchReturnsError(info, is.Body) {
+				refused = true
+				at = is.Pos()
+			}
+		})
+		c.verdictIf(refused, rule, f, "target below zero", at, "a negative target is refused before the stream is touched",
+			"a seek target below zero is accepted on a read handle: Seek(-5, SeekStart) returns -5 and no error, and the next Read starts at offset 0")
+	}
+}
+
+func init() {
+	extend("C10", ruleOptionalCallbackGuarded("C10.optional-callback-guarded"))
+}
+
+// ruleOptionalCallbackGuarded: a contradiction rule. The header callback of Operations is tested for nil at some call
+// sites, so it is optional; a call of it that no nil test guards is a crash for everyone who took that at its word
+// (the unguarded calls sat in the callbacks handed to the indexer, i.e. AFTER the record had been appended).
+func ruleOptionalCallbackGuarded(rule string) func(*Ctx) {
+	return func(c *Ctx) {
+		c.floor(rule, 6, "calls of the optional header callbacks in pkg/operations")
+		cb := c.field("pkg/operations", "Operations", "onHeader")
+		if cb == nil {
+			return
+		}
+		n, guardedSomewhere := 0, false
+		type site struct {
+			f    *FuncInfo
+			call *ast.CallExpr
+			ok   bool
+		}
+		var sites []site
+		for _, f := range c.Funcs {
+			if f.RelPkg() != "pkg/operations" {
+				continue
+			}
+			info := f.Pkg.TypesInfo
+			for _, cs := range f.calls {
+				if selField(info, cs.Call.Fun) != cb {
+					continue
+				}
+				n++
+				guarded := false
+				root := f
+				for g := f; g != nil; g = g.Outer {
+					root = g
+					for _, cl := range enclosingCondsFlow(g.Pkg.TypesInfo, g.Body(), cs.Call) {
+						be, ok := ast.Unparen(cl.e).(*ast.BinaryExpr)
+						if ok && selField(info, be.X) == cb && isNilIdent(info, be.Y) && ((be.Op == token.NEQ) == cl.pos) {
+							guarded = true
+						}
+					}
+				}
+				_ = root
+				if guarded {
+					guardedSomewhere = true
+				}
+				sites = append(sites, site{f, cs.Call, guarded})
+			}
+		}
+		perRoot := map[*FuncInfo]int{}
+		for _, s := range sites {
+			root := s.f
+			for root.Outer != nil {
+				root = root.Outer
+			}
+			perRoot[root]++
+			c.verdictIf(s.ok || !guardedSomewhere, rule, root, fmt.Sprintf("onHeader call#%d", perRoot[root]), s.call.Pos(), "the optional callback is called under a nil test",
+				"the header callback is called without a nil test although other call sites test it (so nil is a legal value): operations created without a callback panic here - in the callback handed to the indexer, after the record has already been appended")
+		}
+		_ = n
 	}
 }
